@@ -710,6 +710,8 @@ def attr_chains(node: ast.AST) -> Set[str]:
 
 def norm(node: ast.AST) -> str:
     """Normalised text of a node (position independent)."""
+    if node is None:
+        return ''
     try:
         return ast.unparse(node)
     except Exception:
